@@ -91,6 +91,14 @@ Theorem C07_adjacent_ranges : forall lo mid w l, 0 <= lo <= mid -> 0 <= w ->
   spec_rm lo (lo + w) 0 (spec_rm lo mid 0 l) = spec_rm lo (mid + w) 0 l.
 Proof. exact spec_rm_adjacent. Qed.
 
+(* ... and on testcase objects: deleting a window in two adjacent steps or in one step gives
+   the same object, field for field *)
+Theorem C07_adjacent_objects : forall t lo mid w t1 t2 t3, wf t ->
+  0 <= lo <= mid -> 0 <= w -> mid + w <= tc_len t ->
+  rmslice t lo mid = Ok t1 -> rmslice t1 lo (lo + w) = Ok t2 ->
+  rmslice t lo (mid + w) = Ok t3 -> t2 = t3.
+Proof. exact rmslice_adjacent. Qed.
+
 (* in the functional model copy is the identity (aliasing is covered by the
    correspondence check, which compares the source object after every operation) *)
 Theorem C07_copy : forall t, copy t = t.
@@ -122,5 +130,6 @@ Print Assumptions C07_content_after.
 Print Assumptions C07_sequence.
 Print Assumptions C07_sequence_only_deletes.
 Print Assumptions C07_adjacent_ranges.
+Print Assumptions C07_adjacent_objects.
 Print Assumptions C07_copy.
 Print Assumptions C07_precondition_needed_refuted.
